@@ -118,6 +118,12 @@ def _structure(body: List[ast.stmt]) -> List[ast.stmt]:
                         new = ast.If(test=st.test, body=b + _structure(rest), orelse=o)
                         out.append(ast.copy_location(new, st))
                         return out
+                    # a return somewhere inside an arm that can also fall through: what follows is the tail of BOTH arms (tail duplication, exact)
+                    if sum(1 for r_ in rest for _ in ast.walk(r_)) <= 250 and not any(isinstance(x, (ast.FunctionDef, ast.ClassDef, ast.Lambda)) for r_ in rest for x in ast.walk(r_)):
+                        b2 = _structure(list(st.body) + [copy.deepcopy(r_) for r_ in rest])
+                        o2 = _structure(list(st.orelse) + [copy.deepcopy(r_) for r_ in rest])
+                        out.append(ast.copy_location(ast.If(test=st.test, body=b2, orelse=o2), st))
+                        return out
                     raise _Unsupported("return in a non-tail if")
                 new = ast.If(test=st.test, body=b, orelse=o)
                 out.append(ast.copy_location(new, st))
